@@ -281,6 +281,11 @@ class C09(Prop):
             doc = docmodel.std_doc(g, ncurves=nc, nrows=g.choice([1, 1, 2, 3, 5, 22, 25]) if g.random() < 0.8 else g.randint(1, 30),
                                    wrap=wrap, custom=g.choice([0, 0, 1, 2]), cell=cell)
             dlm = g.choice([None, None, "SPACE", "TAB", "COMMA"])
+            if g.random() < 0.15:
+                # a header section after the data section (its position in the file is found by tell/seek arithmetic)
+                movable = [k for k, sec in enumerate(doc["sections"]) if sec["kind"] in ("P", "O", "X")]
+                if movable:
+                    doc["sections"].append(doc["sections"].pop(g.choice(movable)))
             sc["base"] = {"kind": "doc", "doc": doc, "dlm": dlm}
             sc["tr"] = {"noise": noise, "repad": g.random() < 0.6, "redelim_pad": g.random() < 0.5,
                         "rewrap": g.choice([None, "one", "all", "rand", "stream_all", "stream_rand", "stream:%d" % (2 * nc), "stream:%d" % (nc + 1),
